@@ -13,7 +13,10 @@ RULE = ("Generated trees/DAGs x every variable (occurring or not; given as Varia
         "differences and a reverse sweep); exact Fraction dual numbers on the polynomial fragment under a proven bit "
         "budget.  Non-trivial = derivative decided AND (variable occurs >= 2 times, or under >= 3 nested non-linear "
         "nodes, or in a product with >= 3 non-constant factors, or under an odd root with negative argument, or under a "
-        "base <= 1 exponential/logarithm); distinct by SHA-1 of (canonical model, point, variable).")
+        "base <= 1 exponential/logarithm); distinct by SHA-1 of (canonical model, point, variable).  Part 'sequence': one "
+        "expression object with one late Partial / Derivative object queried at several points in a row (repeated points, "
+        "another variable's Partial and plain evaluations of the same object in between), every answer checked against "
+        "the oracle for its own point; non-trivial there = at least two answered queries.")
 ASSUMPTIONS = [
     "mpmath 50-digit dual-number AD is the true derivative (self-checked against central differences on every run)",
     "value intermediates restricted to [1e-60,1e60], derivative intermediates to [1e-100,1e100] (else counted as range)",
@@ -54,9 +57,9 @@ def features(m, var, ctx):
     return feats
 
 
-def compare(stats, o, out, m, env, var, route, case, tag, prop=None):
+def compare(stats, o, out, m, env, var, route, case, tag, prop=None, note=""):
     ID = prop or globals()['ID']
-    where = f"d/d{var} of {M.text(m)[:300]} at {M.point_text(env)} via {route}"
+    where = f"d/d{var} of {M.text(m)[:300]} at {M.point_text(env)} via {route}{note}"
     if out.kind != lib.NUM:
         raise violation(ID, tag, f"no-number:{out.kind}:{route}", case,
                         f"{where}: true partial is {o.D} but the library gave {out!r}")
@@ -144,14 +147,77 @@ def make_exact(stats):
     return test
 
 
+def check_sequence(stats, m, envs, steps, var, other, sub="sequence"):
+    """ONE expression object and ONE late Partial (and Derivative) object on it, queried at several points in a row
+    with other uses of the same expression in between (another variable's Partial, plain evaluation, a repeated
+    point): every answer must be the true partial at the point of that query."""
+    m = safe(m)
+    stats.case()
+    e = build(m)
+    vs = M.variables(m)
+    P = lib.Partial(e, var, compute_early=False)
+    Q = lib.Partial(e, other, compute_early=False)
+    D = lib.Derivative(e, compute_early=False) if len(vs) <= 1 and (not vs or vs[0] == var) else None
+    trail = []
+    answered = 0
+    for k, (kind, i) in enumerate(steps):
+        env = envs[i]
+        pt = lib.Point(**env)
+        if kind == "other":
+            trail.append(f"Partial(e, {other}).at({M.point_text(env)}) -> {lib.call(lambda: Q.at(pt))!r}")
+            continue
+        if kind == "eval":
+            trail.append(f"e.at({M.point_text(env)}) -> {lib.call(lambda: e.at(pt))!r}")
+            continue
+        if kind == "derivative" and D is None:
+            kind = "partial"
+        o = DV.oracle(m, env, var)
+        obj, route = (P, "Partial.at/late") if kind == "partial" else (D, "Derivative.at/late")
+        out = lib.call(lambda: obj.at(pt))
+        trail.append(f"{route.split('.')[0]}(e, {var}).at({M.point_text(env)}) -> {out!r}")
+        if o.st != "ok" or out.kind == lib.OVF:
+            continue
+        case = make_case(sub, m, None, var=var, other=other, points=[M.point_to_json(x) for x in envs],
+                         steps=[list(x) for x in steps[:k + 1]])
+        compare(stats, o, out, m, env, var, route, case, sub, note=f" on one object after [{'; '.join(trail[:-1])[-600:]}]")
+        answered += 1
+        stats.count("sequence-answers")
+    if answered >= 2:
+        stats.nontrivial_case(M.digest(M.canon(m), [sorted(x.items()) for x in envs], [list(x) for x in steps], var),
+                              {"expr": M.text(m)[:300], "variable": var, "sequence": trail[:6]})
+
+
+def make_sequence(stats):
+    @given(st.data())
+    def test(data):
+        names = data.draw(S.name_lists(1, 3))
+        if data.draw(st.booleans()):
+            m = data.draw(S.expressions(names, depth=3))
+            envs = [data.draw(S.points(names, extra=False)) for _ in range(data.draw(st.integers(2, 3)))]
+        else:
+            m = data.draw(S.poly_trees(names, depth=3, tags=S.POLY_TAGS))
+            envs = [data.draw(S.exact_points(names)) for _ in range(data.draw(st.integers(2, 3)))]
+        var = data.draw(st.sampled_from(names))
+        other = data.draw(st.sampled_from(names + ["q"]))
+        steps = data.draw(st.lists(st.tuples(st.sampled_from(["partial", "partial", "derivative", "other", "eval"]),
+                                             st.integers(0, len(envs) - 1)), min_size=3, max_size=7))
+        check_sequence(stats, m, envs, [tuple(x) for x in steps], var, other)
+    return test
+
+
 def parts(tier):
     n = 15000 if tier == "quick" else 300000
-    return [hyp_part("general", make_general, int(n * 0.5)),
-            hyp_part("single", make_single, int(n * 0.25)),
-            hyp_part("exact", make_exact, int(n * 0.25))]
+    return [hyp_part("general", make_general, int(n * 0.45)),
+            hyp_part("single", make_single, int(n * 0.2)),
+            hyp_part("exact", make_exact, int(n * 0.2)),
+            hyp_part("sequence", make_sequence, int(n * 0.15))]
 
 
 def replay(case):
+    if case.get("sub") == "sequence":
+        check_sequence(Stats(), case_model(case), [M.point_from_json(x) for x in case["points"]],
+                       [tuple(x) for x in case["steps"]], case["var"], case["other"])
+        return
     check(Stats(), case_model(case), case_point(case), case["var"], case.get("as_object", False),
           selfcheck=True, sub=case.get("sub", "forward"))
 
